@@ -188,7 +188,7 @@ def run_mutant(group, mu, base, scale):
     for c in GROUPS[group]["checks"]:
         cases = max(200, int(QUICK[c] * scale))
         try:
-            r = subprocess.run([os.path.join(VERIF, "check"), c, "--tier", "quick", "--jobs", "1", "--cases", str(cases)],
+            r = subprocess.run([os.path.join(SNAP[0], "check"), c, "--tier", "quick", "--jobs", "1", "--cases", str(cases)],
                                env=env, capture_output=True, text=True, timeout=900)
             out = r.stdout + r.stderr
             rc = r.returncode
@@ -209,6 +209,7 @@ def run_mutant(group, mu, base, scale):
 
 
 QUICK = {}
+SNAP = [VERIF]     # the checks run from a private snapshot of /verif, so that editing /verif during a run cannot skew it
 
 
 def main():
@@ -245,6 +246,13 @@ def main():
     shutil.rmtree(base, ignore_errors=True)
     os.makedirs(base)
     subprocess.run("git -C %s archive HEAD src | tar -x -C %s" % (REPO, base), shell=True, check=True)
+    snap = os.path.join(WORK, "verif-%s" % a.group)
+    shutil.rmtree(snap, ignore_errors=True)
+    os.makedirs(snap)
+    shutil.copytree(os.path.join(VERIF, "hiosim"), os.path.join(snap, "hiosim"), ignore=shutil.ignore_patterns("__pycache__"))
+    for f in ("check", "known_findings.json"):
+        shutil.copy2(os.path.join(VERIF, f), os.path.join(snap, f))
+    SNAP[0] = snap
     results = []
     t0 = time.time()
     with ThreadPoolExecutor(a.par) as ex:
@@ -255,6 +263,7 @@ def main():
             if (i + 1) % 50 == 0:
                 print("... %d/%d done, %d survived, %.0fs" % (i + 1, len(muts), sum(x["verdict"] == "survived" for x in results), time.time() - t0), flush=True)
     shutil.rmtree(base, ignore_errors=True)
+    shutil.rmtree(snap, ignore_errors=True)
     shutil.rmtree(os.path.join(WORK, "ev"), ignore_errors=True)
     os.makedirs(os.path.join(VERIF, "mutation"), exist_ok=True)
     summary = dict(group=a.group, checks=GROUPS[a.group]["checks"], scale=a.scale, total=len(results),
